@@ -1,6 +1,5 @@
-(* GenC20a.v — LATE file of C20 (compiled in parallel with the other GenC20*.v): what is checked of the regenerated table by
-   evaluation: the Array constructor against the model on a fixed family of argument lists (its for-all-arguments proof is
-   not written yet), and the vocabulary of the table. *)
+(* GenC20a.v — LATE file of C20 (compiled in parallel with the other GenC20*.v): the vocabulary of the regenerated table (checked by evaluation):
+   every case type of the type switches is one the interpreter gives a meaning to, no statement is outside the language. *)
 From Coq Require Import String.
 From Verif Require Import Base Sorter Value Seq Coll Pool PoolRun Params Facade FacadeProofs ModuleLang ModuleSem GenModule.
 Open Scope Z_scope.
@@ -11,38 +10,6 @@ Definition gen_of (k : fkind) : gen_ctor :=
   | FAssociation => gen_Association | FArray => gen_Array | FCatalog => gen_Catalog | FList => gen_List
   | FMap => gen_Map | FQueue => gen_Queue | FSet => gen_Set | FStack => gen_Stack
   end.
-
-(* ---------- the remaining constructors: not yet proved for every argument list ---------- *)
-(* Array: the regenerated constructor and the model are compared BY EVALUATION on a
-   fixed family of argument lists (every argument form alone, with a notation before / after, pairs of forms in
-   both orders, sources of every parsed kind with a well- and an ill-typed item) — a weaker obligation than the
-   theorems above, kept until their simulation proofs are written. *)
-Definition sv (z : Z) : val := VInt 64 z.
-Definition sample_forms : list arg :=
-  [ANotation; AInt 0; AInt 3; AUint 0; AUint 2; ASlice []; ASlice [sv 2; sv 1; sv 2]; ASeq KList []; ASeq KSet [sv 1; sv 5];
-   AGoMap [] []; AGoMap [(sv 1, sv 10); (sv 2, sv 20)] [sv 2; sv 1]; AAssocSlice []; AAssocSlice [(sv 1, sv 10); (sv 1, sv 11)];
-   AAssocSeq [(sv 3, sv 30); (sv 1, sv 10)] []; ACollator 1; ACollator 0; AVal (sv 7); AOther;
-   AString [] PPanic; AString [65] PPanic; AString [65] (PColl (VSeq KList [sv 3; sv 1; sv 3]));
-   AString [65] (PColl (VSeq KSet [sv 1; VStr [66]])); AString [65] (PColl (VSeq KSlice [sv 1]));
-   AString [65] (PColl (VMapping MCatalog [sv 1; sv 2; sv 1] [sv 10; sv 20; sv 30]));
-   AString [65] (PColl (VMapping MMap [sv 1; VNil] [sv 10; sv 20])); AString [65] (PColl (VSeq KQueue [VNil; sv 1]))].
-Definition sample_calls : list (list arg) :=
-  [[]] ++ map (fun a => [a]) sample_forms ++ map (fun a => [ANotation; a]) sample_forms ++ map (fun a => [a; ANotation]) sample_forms
-  ++ flat_map (fun a => map (fun b => [a; b]) sample_forms) sample_forms.
-Definition out_fobj_eqb (a : out fobj) (b : out fres) : bool :=
-  match a, b with
-  | Ret (FO (FObj x)), Ret (FObj y) => obj_eqb x y
-  | Ret (FO (FAssoc k v)), Ret (FAssoc k' v') => val_eqb k k' && val_eqb v v'
-  | Panic, Panic => true
-  | Hang, Hang => true
-  | _, _ => false
-  end.
-Definition sample_agree (k : fkind) (tk tv : ety) : bool :=
-  forallb (fun args => out_fobj_eqb (run_ctor (gen_of k) tk tv args) (facade k tk tv args)) sample_calls.
-
-Lemma gen_Array_agrees_on_samples_partial :
-  forallb (fun k => sample_agree k TInt64 TInt64 && sample_agree k TAny TAny) [FArray] = true.
-Proof. vm_compute. reflexivity. Qed.
 
 (* every case type of the regenerated type switches is one the interpreter gives a meaning to *)
 Lemma gen_case_types_known : forallb known_case_type (flat_map (fun g => case_types 10 (g_body g)) gen_ctors) = true.
@@ -64,6 +31,5 @@ Fixpoint has_unknown (fuel : nat) (ss : list mstmt) : bool :=
 Lemma gen_no_unknown_statement : existsb (fun g => has_unknown 10 (g_body g)) gen_ctors = false.
 Proof. vm_compute. reflexivity. Qed.
 
-Print Assumptions gen_Array_agrees_on_samples_partial.
 Print Assumptions gen_case_types_known.
 Print Assumptions gen_no_unknown_statement.
